@@ -127,7 +127,9 @@ def build(S):
         C03.add_extrapolate_preprocessed(S)
 
         S.under_contract(C10.FN_SQRT)
-        C10.add_mirror(S)  # poloidal sqrt spacing of a region = reflected spacing of the mirrored region, guard cells included
+        C10.add_mirror(S)
+        S.under_contract(C10.E_ + "combineSfuncs")
+        C10.add_combine_ranges(S)  # the transition ranges are chosen alike at the start and at the end of a region  # poloidal sqrt spacing of a region = reflected spacing of the mirrored region, guard cells included
 
 
 def post(S):
